@@ -22,6 +22,17 @@ pub fn put<Tr: ?Sized + Trait, M: MemBuilder, V: AnyValue>(dst: &mut AnyVec<Tr, 
     }
 }
 
+#[inline]
+pub fn put_unchecked<Tr: ?Sized + Trait, M: MemBuilder, V: any_vec::any_value::AnyValueSizeless>(dst: &mut AnyVec<Tr, M>, at: Option<usize>, val: V) {
+    // only called with a value of the element type and an index in range (the harness checks the index first)
+    unsafe {
+        match at {
+            None => dst.push_unchecked(val),
+            Some(i) => dst.insert_unchecked(i, val),
+        }
+    }
+}
+
 fn put_lazy<Tr: ?Sized + Trait, M: MemBuilder, C: AnyValueCloneable + AnyValue>(
     dst: &mut AnyVec<Tr, M>,
     at: Option<usize>,
@@ -30,6 +41,14 @@ fn put_lazy<Tr: ?Sized + Trait, M: MemBuilder, C: AnyValueCloneable + AnyValue>(
 ) {
     match depth {
         0 | 1 => put(dst, at, c.lazy_clone()),
+        // the same through the `_unchecked` entry points
+        11 => put_unchecked(dst, at, c.lazy_clone()),
+        12 => {
+            let l1 = c.lazy_clone();
+            put_unchecked(dst, at, l1.lazy_clone())
+        }
+        // built with the constructor instead of the trait method
+        21 => put(dst, at, any_vec::any_value::LazyClone::new(c)),
         2 => {
             let l1 = c.lazy_clone();
             put(dst, at, l1.lazy_clone())
